@@ -2,7 +2,7 @@
 import common
 import gfi_run
 
-RULE = "random programs; fully constrained generate, then three updates with new args (biased to flip Cond checks / change Scan+Vmap inputs) and none/some/all constraint subsets, each followed by the update-back round trip with the returned discard; monitors: kept values, weight = assess(new)-assess(old), discard, round trip"
+RULE = "structural corpus first (gfi_corpus.py: 9 hand-built nestings - Cond over nested @gen at shared / disjoint addresses, Cond of Cond, Scan fed by an upstream choice, Cond in a Scan step, Vmap of nested fn, Vmap of Vmap, Scan of repeat, Cond of Scan, Vmap lanes with a Cond - each with a fixed op script incl. argument changes that flip the check); then random programs; fully constrained generate, then three updates with new args (biased to flip Cond checks / change Scan+Vmap inputs) and none/some/all constraint subsets, each followed by the update-back round trip with the returned discard; monitors: kept values, weight = assess(new)-assess(old), discard, round trip"
 
 SHARDS_QUICK, PER_SHARD_QUICK = 13, 5
 SHARDS_THOROUGH, PER_SHARD_THOROUGH = 14, 18
@@ -10,7 +10,7 @@ SHARDS_THOROUGH, PER_SHARD_THOROUGH = 14, 18
 
 def run(ctx, audit):
     ns, per = (SHARDS_THOROUGH, PER_SHARD_THOROUGH) if ctx.thorough else (SHARDS_QUICK, PER_SHARD_QUICK)
-    common.run_sharded(ctx, "gfi_props", "shard_c03", [(i, per) for i in range(ns)])
+    common.run_sharded(ctx, "gfi_props", "shard_c03", [(i, per, ns) for i in range(ns)])
     extra(ctx)
     return {"rule": RULE}
 
